@@ -53,8 +53,9 @@ type vSyncer struct {
 	hook      func(peer.ID, cid.Cid) // the subscriber's scoped block hook dispatcher
 	reqs      []vReq
 	headErr   error
-	failSync  int // fail the k-th Sync call (1-based); 0 = never
-	failAt    int // within the failing call: fail when about to visit the j-th block (1-based)
+	faultErr  error // the error an injected fault returns (nil: errModelFault)
+	failSync  int   // fail the k-th Sync call (1-based); 0 = never
+	failAt    int   // within the failing call: fail when about to visit the j-th block (1-based)
 	syncs     int
 	noHead    bool
 	yield     bool
@@ -85,6 +86,15 @@ func (m *vSyncer) GetHead(ctx context.Context) (cid.Cid, error) {
 func (m *vSyncer) SameAddrs([]multiaddr.Multiaddr) bool { return true }
 
 var errModelFault = errors.New("model: injected transport fault")
+
+// vTimeoutErr: the error an HTTP client reports when its own time limit expires
+// on a stalled response (net/http's timeout error matches context.DeadlineExceeded)
+type vTimeoutErr struct{}
+
+func (vTimeoutErr) Error() string   { return "model: Client.Timeout exceeded while awaiting headers" }
+func (vTimeoutErr) Timeout() bool   { return true }
+func (vTimeoutErr) Is(e error) bool { return e == context.DeadlineExceeded }
+
 var errModelNotFound = errors.New("model: content not found")
 
 func (m *vSyncer) Sync(ctx context.Context, start cid.Cid, sel ipld.Node) error {
@@ -145,6 +155,9 @@ func (m *vSyncer) Sync(ctx context.Context, start cid.Cid, sel ipld.Node) error 
 			break
 		}
 		if m.failSync == m.syncs && m.failAt == len(visited)+1 {
+			if m.faultErr != nil {
+				return m.faultErr
+			}
 			return errModelFault
 		}
 		visited = append(visited, m.chain[i])
